@@ -148,8 +148,26 @@ template <class C> Verdict check_C20(const Plan& plan, Stats& st) {
     }
     if (plan.sched_policy == 0 && plan.sched_trace.empty()) return none;
     ConcOut<C> out = run_conc<C>(plan, st, plan.sched_policy, plan.sched_param, plan.sched_seed, plan.sched_trace, cps);
+    if (out.switches == 0 && plan.sched_trace.empty() && ref.steps > 4 && out.run.viol.empty()) {
+        // the drawn policy never preempted (no allocator call to switch at, a switch probability too small for so short a world): a
+        // world without an interleaving tests nothing new, so it is run again with two seeded change points inside the tasks' steps
+        Rng r2(plan.sched_seed ^ 0x2c7);
+        std::vector<unsigned long long> cps2{1 + r2.next() % ref.steps, 1 + r2.next() % ref.steps};
+        std::sort(cps2.begin(), cps2.end());
+        out = run_conc<C>(plan, st, 2, 2, plan.sched_seed ^ 0x51, {}, cps2);
+        st.probe("world_rerun_with_change_points");
+    }
     st.fault("schedule.switch", (unsigned long long)out.switches);
     { unsigned long long f = 0; for (auto& o : out.run.outs) if (!o.skipped) f += (unsigned long long)o.fired; if (f) st.fault("alloc_fail.in_task", f); }
+    for (size_t i = 0; i < plan.ops.size(); i++) {
+        if (!plan.ops[i].task || out.run.outs[i].skipped) continue;
+        int k = plan.ops[i].kind;
+        if (k == OP_A_MALLOC || k == OP_A_CALLOC || k == OP_A_REALLOCARRAY) st.probe("allocator_probe_in_task");
+        if (k == OP_ADDBASE || k == OP_REMOVEBASE) st.probe("task_op_on_shared_base");
+        if (k == OP_COMPOSE) st.probe("task_op_on_shared_query_list");
+    }
+    if (!plan.mgrs.empty() && plan.mgrs[0] == MK_COMPLETED) st.probe("world_on_completed_manager");
+    if (out.switches == 0) st.probe("world_without_preemption");
     st.fault(plan.sched_policy == 1 ? "schedule.rr_alloc" : plan.sched_policy == 2 ? "schedule.change_points" : plan.sched_policy == 3 ? "schedule.random_walk" : "schedule.replayed_trace");
     unsigned long long th = 1469598103934665603ull;
     for (int x : out.order) th = fnv1a(&x, sizeof x, th);
